@@ -166,7 +166,16 @@ func GetSignalCells(
 
 	// Find the number of signal cells, ignoring any padding.
 
-	numSignalCells := utils.GetNumberOfSignalCells(bitStream, pos, bitsPerCell)
+	// The cell mask in the header says how many cells the message should
+	// contain.  (The number can't be worked out from the contents of the bit
+	// stream - the data may be followed by any number of zero padding bytes
+	// and any of the values in a cell may be zero, so zeros at the end of the
+	// bit stream may be padding or data.)  If the message is too short to hold
+	// all of the cells, it only contains some of them.
+	numSignalCells := header.NumSignalCells
+	if cellsThatFit := int(bitsLeftInFrame / bitsPerCell); cellsThatFit < numSignalCells {
+		numSignalCells = cellsThatFit
+	}
 
 	if header.MultipleMessage {
 		// The message doesn't contain all the signal cells but there should be
